@@ -130,6 +130,8 @@ def run(tier, seed, build):
                                 j = {"cwd": troot, "base": target["base"], "includes": target["includes"] or None, "fixed": "fix.fixed" if fixed else None}
                             else:
                                 j = {"cwd": os.path.dirname(troot), "base": "pT/" + target["base"], "includes": ["pT/" + i for i in target["includes"]] or None, "fixed": "pT/fix.fixed" if fixed else None}
+                            # half of the histories go through the command-line entry point (pepper-compiler's own option handling)
+                            if nearlier == 0 and all(isinstance(a, int) and a >= 0 for a in target["args"]): j["cli"] = True
                             j.update(args=target["args"], synth=synth, out=os.path.join(troot, "out_%d_%d_%s_%s" % (hs, nearlier, where, "pil" if synth else "des")), save=os.path.join(troot, "out_%d_%d_%s_%s.save" % (hs, nearlier, where, "pil" if synth else "des")))
                             jobs.append(j)
                         plan.append((hs, nearlier, where, jobs))
@@ -146,6 +148,18 @@ def run(tier, seed, build):
                             j.update(args=target["args"], synth=synth, out=os.path.join(root, "tw_%d_%s_%s" % (hs, where, "pil" if synth else "des")), save=os.path.join(root, "tw_%d_%s_%s.save" % (hs, where, "pil" if synth else "des")))
                             jobs.append(j)
                     plan.append((hs, "twin", where, jobs))
+            # the twin once more, compiled with the include directories in the opposite order (an import provided by two of them
+            # then resolves differently there), before the target with its own include list
+            if len(target["includes"]) > 1:
+                for hs in seeds[:2]:
+                    jobs = []
+                    for synth in (True, False):
+                        for root in (twroot, troot):
+                            incs = list(target["includes"]) if root == troot else list(reversed(target["includes"]))
+                            j = {"cwd": root, "base": target["base"], "includes": incs, "fixed": ("fix.fixed" if (root == troot and fixed) else None)}
+                            j.update(args=target["args"], synth=synth, out=os.path.join(root, "twr_%d_%s" % (hs, "pil" if synth else "des")), save=os.path.join(root, "twr_%d_%s.save" % (hs, "pil" if synth else "des")))
+                            jobs.append(j)
+                    plan.append((hs, "twin", "root", jobs))
             # the histories are independent fresh processes: run them side by side
             from concurrent.futures import ThreadPoolExecutor
             with ThreadPoolExecutor(max_workers=12) as ex:
